@@ -415,7 +415,9 @@ Lemma es_bytes_split ks r s out :
   /\ unbe (firstn (Z.to_nat w) out) 0 = r /\ unbe (skipn (Z.to_nat w) out) 0 = s.
 Proof.
   unfold es_signature_bytes. intros H. hstep H. hstep H. injection H as <-.
-  repeat match goal with E : to_bytes_big _ _ = Ok _ |- _ => apply tbb_ok in E; destruct E as (-> & ? & ?) end.
+  (* whatever expression the source uses for the width, it equals ceil(ks / 8) *)
+  repeat match goal with E : to_bytes_big ?n _ = Ok _ |- _ =>
+    replace n with (ceil_div ks 8) in E by (unfold ceil_div; lia); apply tbb_ok in E; destruct E as (-> & ? & ?) end.
   cbv zeta. set (w := ceil_div ks 8) in *.
   assert (Hpw : 256 ^ Z.of_nat (Z.to_nat w) = 256 ^ w) by (rewrite Z2Nat.id by lia; reflexivity).
   split; [lia|]. split; [lia|]. split; [lia|]. split; [autorewrite with blen; lia|]. split.
@@ -432,14 +434,16 @@ Proof.
   assert (Hp : 2 ^ (8 * ceil_div ks 8) = 256 ^ ceil_div ks 8) by (change 256 with (2 ^ 8); rewrite <- Z.pow_mul_r by lia; reflexivity).
   destruct (es_signature_bytes ks r s) as [out|e] eqn:E.
   - exists out. split; [reflexivity|]. apply es_bytes_split in E. cbv zeta in E. tauto.
-  - exfalso. unfold es_signature_bytes in E. rewrite !to_bytes_big_ok in E by lia. discriminate E.
+  - exfalso. unfold es_signature_bytes in E.
+    repeat match type of E with context [to_bytes_big ?n _] => progress replace n with (ceil_div ks 8) in E by (unfold ceil_div; lia) end.
+    rewrite !to_bytes_big_ok in E by lia. discriminate E.
 Qed.
 
 (* ------------------------------------------------------------------------------------------------------------------
    The KMS and the whole signing step; the signature primitives and the key store are abstract
    ------------------------------------------------------------------------------------------------------------------ *)
 Section Crypto.
-  Variable keystore : bytes -> option (keykind * bytes).
+  Variable keystore : option bytes -> bytes -> option (keykind * bytes).
   Variable ecdsa : bytes -> bytes -> bytes -> nat -> Z * Z.
   Variable eddsa eddsa_ph : bytes -> bytes -> bytes.
   Local Notation KMS := (kms_sign keystore ecdsa eddsa eddsa_ph).
@@ -457,9 +461,9 @@ Section Crypto.
 
   Lemma kms_sign_spec ent msg kn alg ctx sig ent' :
     KMS ent msg kn alg ctx = Ok (sig, ent') ->
-    exists kind key, keystore kn = Some (kind, key) /\ verify_signing_key_type kind alg = Ok true /\ kms_result kind key ent msg alg sig ent'.
+    exists kind key, keystore ctx kn = Some (kind, key) /\ verify_signing_key_type kind alg = Ok true /\ kms_result kind key ent msg alg sig ent'.
   Proof.
-    unfold kms_sign. destruct (keystore kn) as [[kind key]|]; [|discriminate]. intros H. hstep H.
+    unfold kms_sign. destruct (keystore ctx kn) as [[kind key]|]; [|discriminate]. intros H. hstep H.
     match goal with b : bool |- _ => destruct b; [|discriminate H] end. cbn [negb] in H.
     exists kind, key. split; [reflexivity|]. split; [assumption|].
     destruct kind as [ks| | |]; cbn [kms_result]; try discriminate H.
@@ -474,13 +478,13 @@ Section Crypto.
 
   (* a key whose class does not match the algorithm is refused *)
   Lemma kms_mismatch ent msg kn alg ctx kind key :
-    In alg five_algs -> keystore kn = Some (kind, key) -> match kind with KEc ks => 0 <= ks | _ => True end ->
+    In alg five_algs -> keystore ctx kn = Some (kind, key) -> match kind with KEc ks => 0 <= ks | _ => True end ->
     spec_key_matches kind alg = false -> KMS ent msg kn alg ctx = Raise ValueError.
   Proof.
     intros Ha Hk Hs Hm. unfold kms_sign. rewrite Hk, (key_type_spec kind alg Ha Hs).
     destruct kind; [rewrite Hm; reflexivity..|reflexivity].
   Qed.
-  Lemma kms_unknown_key ent msg kn alg ctx : keystore kn = None -> KMS ent msg kn alg ctx = Raise ValueError.
+  Lemma kms_unknown_key ent msg kn alg ctx : keystore ctx kn = None -> KMS ent msg kn alg ctx = Raise ValueError.
   Proof. intros Hk. unfold kms_sign. rewrite Hk. reflexivity. Qed.
 
   (* under the laws of the primitives the emitted signature verifies with the COSE verifier of the specification side *)
@@ -618,7 +622,7 @@ Qed.
    Single-level signing: C04 (unsigned input) and the three already-signed actions of C09
    ------------------------------------------------------------------------------------------------------------------ *)
 Section Single.
-  Variable keystore : bytes -> option (keykind * bytes).
+  Variable keystore : option bytes -> bytes -> option (keykind * bytes).
   Variable ecdsa : bytes -> bytes -> bytes -> nat -> Z * Z.
   Variable eddsa eddsa_ph : bytes -> bytes -> bytes.
   Local Notation KMS := (kms_sign keystore ecdsa eddsa eddsa_ph).
@@ -628,12 +632,12 @@ Section Single.
   (* everything one signing step does to an envelope whose wrapper (value w under key 2) holds the list `cur` of byte strings:
      exactly one COSE_Sign1 block is appended to `cur`, nothing else changes; the block's protected header, the message signed, the
      key used and what the KMS did with it *)
-  Definition signed_with (ent : nat) (env env' : cbor) (ent' : nat) (w : bytes) (cur : list cbor) (kn : bytes) (kid : Z) (alg : bytes) (id : Z) : Prop :=
+  Definition signed_with (ent : nat) (env env' : cbor) (ent' : nat) (w : bytes) (cur : list cbor) (kn : bytes) (kid : Z) (alg : bytes) (ctx : option bytes) (id : Z) : Prop :=
     exists d0 rest dg sig kind key,
       let prot := encode (spec_protected id kid) in
       let msg := encode (sig_structure prot (ser dg)) in
       cur = CBytes d0 :: rest /\ py_loads (CBytes d0) = Ok dg
-      /\ keystore kn = Some (kind, key) /\ verify_signing_key_type kind alg = Ok true
+      /\ keystore ctx kn = Some (kind, key) /\ verify_signing_key_type kind alg = Ok true
       /\ kms_result ecdsa eddsa eddsa_ph kind key ent msg alg sig ent'
       /\ same_but_wrapper env env' w (encode (CArray (cur ++ [CBytes (encode (cose_sign1 prot sig))]))).
 
@@ -644,7 +648,7 @@ Section Single.
     dict_get kvs (CUint 2) = Some (CBytes w) -> py_loads (CBytes w) = Ok (CArray old) -> all_bstr old ->
     first_tagged 18 old = Ok None -> spec_cose_alg alg = Some id -> 0 <= kid < 2 ^ 64 ->
     SIGN ent (CTag t (CMap kvs)) kn kid alg ctx action = Ok (env', ent') ->
-    signed_with ent (CTag t (CMap kvs)) env' ent' w old kn kid alg id.
+    signed_with ent (CTag t (CMap kvs)) env' ent' w old kn kid alg ctx id.
   Proof.
     intros Hw Hold Hb Hn Hid Hkid H.
     pose proof (asa_unsigned t kvs w old Hw Hold {| envelope := CTag t (CMap kvs); _skip_signing := false |} action eq_refl Hn) as Hasa.
@@ -681,7 +685,7 @@ Section Single.
       let msg := encode (sig_structure prot (ser dg)) in
       old = pre ++ a0 :: post /\ first_tagged 18 pre = Ok None /\ py_loads a0 = Ok (CTag 18 x)
       /\ pre ++ post = CBytes d0 :: rest /\ py_loads (CBytes d0) = Ok dg
-      /\ keystore kn = Some (kind, key) /\ verify_signing_key_type kind alg = Ok true
+      /\ keystore ctx kn = Some (kind, key) /\ verify_signing_key_type kind alg = Ok true
       /\ kms_result ecdsa eddsa eddsa_ph kind key ent msg alg sig ent'
       /\ same_but_wrapper (CTag t (CMap kvs)) env' w (encode (CArray ((pre ++ post) ++ [CBytes (encode (cose_sign1 prot sig))]))).
   Proof.
@@ -707,7 +711,7 @@ Section Single.
   Lemma sign_mismatch ent t kvs w old d0 rest dg kn kid alg ctx action id kind key :
     dict_get kvs (CUint 2) = Some (CBytes w) -> py_loads (CBytes w) = Ok (CArray old) -> first_tagged 18 old = Ok None ->
     old = d0 :: rest -> py_loads d0 = Ok dg -> spec_cose_alg alg = Some id ->
-    keystore kn = Some (kind, key) -> match kind with KEc ks => 0 <= ks | _ => True end -> spec_key_matches kind alg = false ->
+    keystore ctx kn = Some (kind, key) -> match kind with KEc ks => 0 <= ks | _ => True end -> spec_key_matches kind alg = false ->
     SIGN ent (CTag t (CMap kvs)) kn kid alg ctx action = Raise ValueError.
   Proof.
     intros Hw Hold Hn -> Hd Hid Hk Hks Hm. unfold sign_envelope. cbv zeta.
@@ -729,7 +733,7 @@ End Single.
    C04: the statements of Props/C04.v
    ------------------------------------------------------------------------------------------------------------------ *)
 Section C04.
-  Variable keystore : bytes -> option (keykind * bytes).
+  Variable keystore : option bytes -> bytes -> option (keykind * bytes).
   Variable ecdsa : bytes -> bytes -> bytes -> nat -> Z * Z.
   Variable eddsa eddsa_ph : bytes -> bytes -> bytes.
   Local Notation SIGN := (sign_envelope keystore ecdsa eddsa eddsa_ph).
@@ -744,7 +748,7 @@ Section C04.
   Lemma c04_signed_with ent t kvs w old kn kid alg ctx action id env' ent' :
     unsigned_input kvs w old -> spec_cose_alg alg = Some id -> 0 <= kid < 2 ^ 64 ->
     SIGN ent (CTag t (CMap kvs)) kn kid alg ctx action = Ok (env', ent') ->
-    SW ent (CTag t (CMap kvs)) env' ent' w old kn kid alg id.
+    SW ent (CTag t (CMap kvs)) env' ent' w old kn kid alg ctx id.
   Proof. intros (Hw & Hold & Hb & Hn). apply sign_unsigned; assumption. Qed.
 
   Lemma c04_appends_one ent t kvs w old kn kid alg ctx action id env' ent' :
@@ -782,7 +786,7 @@ Section C04.
     unsigned_input kvs w old -> spec_cose_alg alg = Some id -> 0 <= kid < 2 ^ 64 ->
     SIGN ent (CTag t (CMap kvs)) kn kid alg ctx action = Ok (env', ent') ->
     exists d0 rest dg sig kind key,
-      old = CBytes d0 :: rest /\ py_loads (CBytes d0) = Ok dg /\ keystore kn = Some (kind, key)
+      old = CBytes d0 :: rest /\ py_loads (CBytes d0) = Ok dg /\ keystore ctx kn = Some (kind, key)
       /\ (match kind with KEc ks => 0 <= ks | _ => True end -> spec_key_matches kind alg = true)
       /\ same_but_wrapper (CTag t (CMap kvs)) env' w (encode (CArray (old ++ [CBytes (encode (cose_sign1 (encode (spec_protected id kid)) sig))])))
       /\ cose_verify ecdsa_verify eddsa_verify eddsa_ph_verify kind (pub key) alg
@@ -1265,7 +1269,7 @@ Qed.
    C09: the statements of Props/C09.v
    ------------------------------------------------------------------------------------------------------------------ *)
 Section C09.
-  Variable keystore : bytes -> option (keykind * bytes).
+  Variable keystore : option bytes -> bytes -> option (keykind * bytes).
   Variable ecdsa : bytes -> bytes -> bytes -> nat -> Z * Z.
   Variable eddsa eddsa_ph : bytes -> bytes -> bytes.
   Local Notation SIGN := (sign_envelope keystore ecdsa eddsa eddsa_ph).
@@ -1311,7 +1315,7 @@ Section C09.
     SIGN ent (CTag t (CMap kvs)) kn kid alg ctx act_remove_old = Ok (env', ent') ->
     exists pre post x d0 rest dg sig kind key,
       old = pre ++ a0 :: post /\ first_tagged 18 pre = Ok None /\ py_loads a0 = Ok (CTag 18 x)
-      /\ pre ++ post = CBytes d0 :: rest /\ py_loads (CBytes d0) = Ok dg /\ keystore kn = Some (kind, key)
+      /\ pre ++ post = CBytes d0 :: rest /\ py_loads (CBytes d0) = Ok dg /\ keystore ctx kn = Some (kind, key)
       /\ same_but_wrapper (CTag t (CMap kvs)) env' w
            (encode (CArray ((pre ++ post) ++ [CBytes (encode (cose_sign1 (encode (spec_protected id kid)) sig))])))
       /\ cose_verify ecdsa_verify eddsa_verify eddsa_ph_verify kind (pub key) alg
@@ -1330,7 +1334,7 @@ Section C09.
     load_envelope infile = Ok (CTag t (CMap kvs)) ->
     dict_get kvs (CUint 2) = Some (CBytes w) -> py_loads (CBytes w) = Ok (CArray old) -> first_tagged 18 old = Ok None ->
     old = d0 :: rest -> py_loads d0 = Ok dg -> spec_cose_alg alg = Some id ->
-    keystore kn = Some (kind, key) -> match kind with KEc ks => 0 <= ks | _ => True end -> spec_key_matches kind alg = false ->
+    keystore ctx kn = Some (kind, key) -> match kind with KEc ks => 0 <= ks | _ => True end -> spec_key_matches kind alg = false ->
     (forall msg, kms_sign keystore ecdsa eddsa eddsa_ph ent msg kn alg ctx = Raise ValueError)
     /\ CLI ent infile kn kid alg ctx action = Raise ValueError.
   Proof.
